@@ -20,6 +20,8 @@ func init() {
 	vfRegister("VfC14_fault", VfC14_fault)
 	vfRegister("VfC14_faultSched", VfC14_faultSched)
 	vfRegister("VfC14_twoFaults", VfC14_twoFaults)
+	vfRegister("VfC14_endedThenQueue", VfC14_endedThenQueue)
+	vfRegister("VfC14_resetCloseError", VfC14_resetCloseError)
 }
 
 // vfCStream is a scripted Modify client stream played by a tiny conformant
@@ -39,12 +41,19 @@ type vfCStream struct {
 	broken        bool
 	respClosed    bool
 	err           error
+	// endAfter >= 0: the server ends the RPC with an OK status once that many responses were delivered: Recv
+	// returns io.EOF and, as gRPC does on a terminated stream, every later Send returns io.EOF
+	endAfter int
+	ended    bool
+	// closeErr: the status with which the server answers the client's half-close (nil: OK, Recv returns io.EOF)
+	closeErr   error
+	halfClosed bool
 	// violate: every answer to an operation request also carries a result for an id that was never sent
 	violate bool
 }
 
 func vfNewCStream() *vfCStream {
-	return &vfCStream{resp: make(chan *spb.ModifyResponse, 64), sendFailAt: -1, recvFailAfter: -1}
+	return &vfCStream{resp: make(chan *spb.ModifyResponse, 64), sendFailAt: -1, recvFailAfter: -1, endAfter: -1}
 }
 
 func (s *vfCStream) closeResp() {
@@ -56,6 +65,10 @@ func (s *vfCStream) closeResp() {
 
 func (s *vfCStream) Send(m *spb.ModifyRequest) error {
 	s.mu.Lock()
+	if s.ended {
+		s.mu.Unlock()
+		return io.EOF
+	}
 	i := len(s.sent)
 	if s.sendFailAt >= 0 && i >= s.sendFailAt {
 		first := !s.enteredOnce
@@ -93,6 +106,11 @@ func (s *vfCStream) Send(m *spb.ModifyRequest) error {
 
 func (s *vfCStream) Recv() (*spb.ModifyResponse, error) {
 	s.mu.Lock()
+	if s.endAfter >= 0 && s.delivered >= s.endAfter {
+		s.ended = true
+		s.mu.Unlock()
+		return nil, io.EOF
+	}
 	if s.recvFailAfter >= 0 && s.delivered >= s.recvFailAfter {
 		s.broken = true
 		s.mu.Unlock()
@@ -106,6 +124,9 @@ func (s *vfCStream) Recv() (*spb.ModifyResponse, error) {
 		if s.broken {
 			return nil, s.err
 		}
+		if s.halfClosed && s.closeErr != nil {
+			return nil, s.closeErr
+		}
 		return nil, io.EOF
 	}
 	s.mu.Lock()
@@ -117,6 +138,7 @@ func (s *vfCStream) Recv() (*spb.ModifyResponse, error) {
 func (s *vfCStream) CloseSend() error {
 	s.mu.Lock()
 	defer s.mu.Unlock()
+	s.halfClosed = true
 	s.closeResp()
 	return nil
 }
@@ -310,6 +332,90 @@ func VfC14_twoFaults() {
 			vfAssert(x.OperationID == 100, "C14:no-stale-results-after-reconnect")
 		}
 	}
+	vfAssert(c.Close() == nil, "C14:final-close-returns")
+	vfReach("end")
+}
+
+// VfC14_endedThenQueue: the server ends the RPC with an OK status while the client is idle (after the handshake
+// and k answered operations); the application then queues further requests.  Their Send meets a terminated
+// stream (io.EOF): the calls that queue return, the failure is recorded, and AwaitConverged returns it instead of
+// waiting for answers that can never come.
+func VfC14_endedThenQueue() {
+	st := vfNewCStream()
+	k := vfInt("answered-before-end", 0, 2)
+	st.endAfter = 2 + k // handshake: session parameters + election id
+	stub := &vfCStub{streams: []*vfCStream{st}}
+	c, err := New(ElectedPrimaryClient(&spb.Uint128{Low: 1}), PersistEntries())
+	if err != nil {
+		panic(err)
+	}
+	c.UseStub(stub)
+	ctx := context.Background()
+	if err := c.Connect(ctx); err != nil {
+		panic(err)
+	}
+	c.StartSending()
+	for i := 0; i < k; i++ {
+		c.Q(vfCOpN(uint64(i + 1)))
+	}
+	vfSettleC()
+	// the stream is over; the application does not know yet
+	qDone := make(chan struct{})
+	go func() {
+		for i := 0; i < 3; i++ {
+			c.Q(vfCOpN(uint64(10 + i)))
+		}
+		close(qDone)
+	}()
+	vfSettleC()
+	vfAssert(vfClosed(qDone), "C14:calls-that-queue-requests-return")
+	if !vfClosed(qDone) {
+		return
+	}
+	se, re := c.hasErrors()
+	vfAssert(len(se)+len(re) > 0, "C14:stream-error-recorded")
+	if len(se)+len(re) > 0 {
+		vfAssert(c.AwaitConverged(ctx) != nil, "C14:await-converged-returns-the-error")
+	}
+	vfAssert(c.Close() == nil, "C14:close-returns")
+	vfReach("end")
+}
+
+// VfC14_resetCloseError: a fault that arrives WHILE Reset is running - the server answers the half-close that
+// Reset itself issues with a non-OK status.  When Reset returns, the client is as good as new: no error of the
+// old stream is left, and an exchange on a fresh, healthy stream converges.
+func VfC14_resetCloseError() {
+	st := vfNewCStream()
+	st.closeErr = []error{status.Error(codes.Unavailable, "transport is closing"), status.Error(codes.Aborted, "aborted"), status.Error(codes.Internal, "stream terminated")}[vfInt("close.status", 0, 2)]
+	good := vfNewCStream()
+	stub := &vfCStub{streams: []*vfCStream{st, good}}
+	c, err := New(ElectedPrimaryClient(&spb.Uint128{Low: 1}), PersistEntries())
+	if err != nil {
+		panic(err)
+	}
+	c.UseStub(stub)
+	ctx := context.Background()
+	if err := c.Connect(ctx); err != nil {
+		panic(err)
+	}
+	c.StartSending()
+	n := vfInt("ops", 0, 2)
+	for i := 0; i < n; i++ {
+		c.Q(vfCOpN(uint64(i + 1)))
+	}
+	vfAssert(c.AwaitConverged(ctx) == nil, "C14:healthy-exchange-converges")
+	c.Reset()
+	vfReach("reset-done")
+	p, _ := c.Pending()
+	r, _ := c.Results()
+	se, re := c.hasErrors()
+	vfAssert(len(p) == 0 && len(r) == 0 && len(se)+len(re) == 0, "C14:reset-leaves-no-stale-state")
+	if err := c.Connect(ctx); err != nil {
+		panic(err)
+	}
+	c.StartSending()
+	c.Q(vfCOpN(100))
+	vfAssert(c.AwaitConverged(ctx) == nil, "C14:exchange-after-reconnect-converges")
 	vfAssert(c.Close() == nil, "C14:final-close-returns")
 	vfReach("end")
 }
